@@ -806,6 +806,18 @@ func (e *Env) call(n *CCall) CV {
 			t = types.Typ[types.Int64]
 		}
 		return CV{T: g.unbox(v.T, t), Ty: t}
+	case "deref":
+		need(1)
+		v := e.eval(n.Args[0])
+		pt, ok := v.Ty.Underlying().(*types.Pointer)
+		if !ok {
+			panic(cerr("deref of non-pointer"))
+		}
+		if _, isStruct := pt.Elem().Underlying().(*types.Struct); isStruct {
+			panic(cerr("deref of struct pointer: use field access"))
+		}
+		k, srt := g.scalarKey(pt.Elem())
+		return CV{T: sx("select", g.heapGet(e.st, k, srt), v.T), Ty: pt.Elem()}
 	case "haskey":
 		need(2)
 		m := e.eval(n.Args[0])
